@@ -100,7 +100,9 @@ def apply_random_op(c, rng, d):
             col = rng.randrange(3)
             present = sorted(set(okeys(d, col)))
             vals = rng.sample(present, rng.randint(1, len(present)))
-            arg = as_arg(rng, vals) if len(vals) > 1 or rng.random() < 0.5 else vals[0]
+            # a value list may name a value more than once (e.g. the descriptor of another dataset): seeded change C11-m7
+            rep = [rng.choice(vals) for _ in range(rng.randint(1, 2))] if rng.random() < 0.35 else []
+            arg = as_arg(rng, vals + rep) if len(vals) > 1 or rep or rng.random() < 0.5 else vals[0]
             enc = [enc_cond(c, v) if col == 1 else int(v) for v in vals]
             return ['SubsetObs', col, enc], d.subset_obs(OCOLS[col], arg)
         if kind == 'subset_chan':
@@ -108,7 +110,8 @@ def apply_random_op(c, rng, d):
             keys = [core._k(x) for x in d.channel_descriptors[CCOLS[col]]]
             present = sorted(set(keys))
             vals = rng.sample(present, rng.randint(1, len(present)))
-            arg = as_arg(rng, vals) if len(vals) > 1 or rng.random() < 0.5 else vals[0]
+            rep = [rng.choice(vals) for _ in range(rng.randint(1, 2))] if rng.random() < 0.35 else []
+            arg = as_arg(rng, vals + rep) if len(vals) > 1 or rep or rng.random() < 0.5 else vals[0]
             return ['SubsetChan', col, [int(v) for v in vals]], d.subset_channel(CCOLS[col], arg)
         if kind == 'subset_time':
             col = 1
@@ -228,6 +231,9 @@ def run(c):
     if kind == 'average':
         from rsatoolbox.data import average_dataset_by
         col = rng.randrange(3)
+        if rng.random() < 0.5:
+            # integer-valued measurements stored with an integer dtype (counts): the averages are still exact means (C11-m8)
+            d.measurements = d.measurements.astype(np.int64)
         avg, uv, cnt = average_dataset_by(d, OCOLS[col])
         return dict(init=init, col=col, means=[[float(x) for x in r] for r in avg],
                     labs=[enc_cond(c, v) if col == 1 else int(v) for v in uv], counts=[int(x) for x in cnt])
